@@ -466,3 +466,106 @@ pub fn replay(prop: &Property, tier: Tier, file: &str) -> i32 {
         1
     }
 }
+
+/// Merge the shard reports of an extra (sanitizer) pass into the property's evidence file.
+/// `dir` holds s<i>.json (+ .sigs), s<i>.log and s<i>.rc written by ./check. A shard that died
+/// or whose sanitizer reported an error is a violation of the property being driven (the report
+/// names the sanitizer); reports that are merely missing make the pass inconclusive.
+pub fn merge_extra(prop: &Property, label: &str, dir: &str, ok_exit_codes: &[i32]) -> i32 {
+    let root = verif_root();
+    let mut m = Merged {
+        evaluations: 0,
+        held: 0,
+        not_judged: 0,
+        counters: BTreeMap::new(),
+        maxes: BTreeMap::new(),
+        sets: BTreeMap::new(),
+        bitsets: BTreeMap::new(),
+        samples: Vec::new(),
+        violations: Vec::new(),
+        inconclusive: Vec::new(),
+        sigs: HashSet::new(),
+    };
+    let mut sanitizer_reports: Vec<String> = Vec::new();
+    let mut problems: Vec<String> = Vec::new();
+    let mut shards = 0;
+    let mut entries: Vec<_> = fs::read_dir(dir).map(|d| d.filter_map(|e| e.ok()).collect()).unwrap_or_default();
+    entries.sort_by_key(|e| e.path());
+    for e in entries {
+        let path = e.path();
+        let name = path.file_name().unwrap().to_string_lossy().into_owned();
+        if !name.ends_with(".rc") {
+            continue;
+        }
+        shards += 1;
+        let stem = name.trim_end_matches(".rc");
+        let rc: i32 = fs::read_to_string(&path).ok().and_then(|s| s.trim().parse().ok()).unwrap_or(-1);
+        let report = Path::new(dir).join(format!("{stem}.json"));
+        let log = fs::read_to_string(Path::new(dir).join(format!("{stem}.log"))).unwrap_or_default();
+        let merged_ok = report.exists() && merge_report(&mut m, &report).is_ok();
+        if !ok_exit_codes.contains(&rc) {
+            // sanitizer verdict: keep the part of the log that names the error
+            let excerpt: String = log
+                .lines()
+                .filter(|l| l.contains("error:") || l.contains("Undefined Behavior") || l.contains("Invalid ") || l.contains("definitely lost") || l.contains("ERROR SUMMARY") || l.contains("data race") || l.contains(" at ") || l.contains("   by "))
+                .take(14)
+                .collect::<Vec<_>>()
+                .join(" | ");
+            let case = read_cur(&report).map(|(g, i, s)| format!("{g}#{i} seed {s}")).unwrap_or_else(|| "?".into());
+            sanitizer_reports.push(format!("shard {stem} exit {rc} (last case {case}): {}", crate::framework::truncate(excerpt, 900)));
+        } else if !merged_ok {
+            problems.push(format!("shard {stem}: exit {rc} but no readable report"));
+        }
+    }
+    if shards == 0 {
+        problems.push(format!("no shard ran in {dir}"));
+    }
+    let ev_path = root.join("evidence").join(format!("{}.json", prop.id));
+    let mut ev: Value = fs::read_to_string(&ev_path).ok().and_then(|t| serde_json::from_str(&t).ok()).unwrap_or_else(|| json!({}));
+    let n_viol = m.violations.len() + sanitizer_reports.len();
+    let summary = json!({
+        "cases_executed": m.evaluations,
+        "held": m.held,
+        "shards": shards,
+        "violations_by_monitors": m.violations.iter().take(5).map(|v| v.to_json()).collect::<Vec<_>>(),
+        "sanitizer_reports": sanitizer_reports,
+        "observed_counters": m.counters,
+        "problems": problems,
+    });
+    if let Some(cov) = ev.get_mut("coverage").and_then(|c| c.as_object_mut()) {
+        cov.insert(format!("pass_{label}"), summary);
+        if let Some(n) = cov.get("evaluations").and_then(|v| v.as_u64()) {
+            cov.insert("evaluations".into(), json!(n + m.evaluations));
+        }
+    }
+    if let Some(v) = ev.get("violations").and_then(|v| v.as_i64()) {
+        ev["violations"] = json!(v + n_viol as i64);
+    }
+    let _ = fs::write(&ev_path, serde_json::to_string_pretty(&ev).unwrap() + "\n");
+    let replay_dir = root.join("replays");
+    let mut rc = 0;
+    for (n, v) in m.violations.iter().enumerate().take(20) {
+        let _ = fs::create_dir_all(&replay_dir);
+        let path = replay_dir.join(format!("{}-{}-{}.json", prop.id, label, n));
+        let _ = fs::write(&path, serde_json::to_string_pretty(&json!({"property": prop.id, "pass": label, "tier": "quick", "signature": v.signature, "gen": v.gen, "index": v.index, "seed": v.seed, "detail": v.detail})).unwrap());
+        println!("VIOLATION property={} replay={}", prop.id, path.display());
+        eprintln!("  [{} / {label}] {} :: {}", prop.id, v.signature, v.detail);
+        rc = 1;
+    }
+    for (n, r) in sanitizer_reports.iter().enumerate() {
+        let _ = fs::create_dir_all(&replay_dir);
+        let path = replay_dir.join(format!("{}-{}-sanitizer-{}.json", prop.id, label, n));
+        let _ = fs::write(&path, serde_json::to_string_pretty(&json!({"property": prop.id, "pass": label, "report": r, "logs": dir})).unwrap());
+        println!("VIOLATION property={} replay={}", prop.id, path.display());
+        eprintln!("  [{} / {label}] {r}", prop.id);
+        rc = 1;
+    }
+    println!("{} pass {label}: {} cases in {} shards, {} monitor violations, {} sanitizer reports", prop.id, m.evaluations, shards, m.violations.len(), sanitizer_reports.len());
+    if rc == 0 && !problems.is_empty() {
+        for p in &problems {
+            println!("INCONCLUSIVE property={} pass {label}: {p}", prop.id);
+        }
+        return 2;
+    }
+    rc
+}
